@@ -25,11 +25,17 @@ Sources of AGP text:
      subset of the steps) the assembly is formatted and measured: the rows written are the rows the object holds now
      (mirrored here in a plain list), the last object end equals their total, equals Scaffold.length read at that
      moment, and the object ends sum to Assembly.length.
+  g. the .agp cache beside a FASTA whose content changed: "the .agp cache beside an indexed FASTA" describes the FASTA
+     that lies beside it once the tools have loaded it.  Histories of one file name: indexed; replaced by other content;
+     then the .fai alone (what `samtools faidx` does), the .agp alone, or neither rewritten for the new content; time
+     stamps in the order of the events; then auto_load().  The .agp found beside the FASTA afterwards is measured
+     against the records the FASTA holds now, and so is the x.fa / x.agp pair written from the loaded assembly.
 """
 
 import contextlib
 import io
 import itertools
+import os
 import pathlib
 import random
 
@@ -391,6 +397,95 @@ def check_history(start, ops, observe):
     return []
 
 
+# ---- g. the cache beside a FASTA that was replaced
+HISTORY_T0 = 1_700_000_000
+
+
+def fai_text(layout):
+    return "".join(f"{lay['name']}\t{lay['length']}\t{lay['offset']}\t{lay['line_residues']}\t{lay['line_bytes']}\n" for lay in layout)
+
+
+def tiling_specs(case):
+    """[(record name, row specs of its maximal-run tiling)]"""
+    return [(r.name, [["G", t[1], "scaffold"] if t[0] == "G" else ["F", r.name, t[1], t[2], 1, []] for t in G.tiling(r.seq)]) for r in case.records]
+
+
+def check_replaced(old, case, d, refreshed, bs):
+    """old / case: earlier and present content of in.fa; refreshed: "fai" | "agp" | "none" -> messages"""
+    path = d / "in.fa"
+    fai, agp = pathlib.Path(str(path) + ".fai"), pathlib.Path(str(path) + ".agp")
+    out_fa, out_agp = d / "x.fa", d / "x.agp"
+    fi = None
+    try:
+        old.write(path)
+        fi = FastaIndex(path, bs)
+        try:
+            fi.auto_load()
+        except Exception as e:  # noqa: BLE001
+            return [f"auto_load raised {e!r} on the earlier, well-formed version of the FASTA"]
+        close_index(fi)
+        for f in (fai, agp):
+            os.utime(f, (HISTORY_T0, HISTORY_T0))
+        layout = case.write(path)
+        os.utime(path, (HISTORY_T0 + 10, HISTORY_T0 + 10))
+        if refreshed == "fai":
+            fai.write_text(fai_text(layout))
+            os.utime(fai, (HISTORY_T0 + 20, HISTORY_T0 + 20))
+        elif refreshed == "agp":
+            agp.write_text(own_agp_text(tiling_specs(case)))
+            os.utime(agp, (HISTORY_T0 + 20, HISTORY_T0 + 20))
+        left = {"fai": "the .fai rewritten for the new content (newer than the FASTA), the .agp left from the old content (older)",
+                "agp": "the .agp rewritten for the new content (newer than the FASTA), the .fai left from the old content (older)",
+                "none": "both cache files left from the old content (older than the FASTA)"}[refreshed]  # fmt: skip
+        how = f"FASTA indexed, replaced by other content, {left}, loaded again"
+        fi = FastaIndex(path, bs)
+        try:
+            fi.auto_load()
+        except Exception as e:  # noqa: BLE001
+            return [f"{how}: auto_load raised {e!r} on a well-formed FASTA"]
+        lengths = {r.name: len(r.seq) for r in case.records}
+        expected = [(r.name, None, None) for r in case.records]  # lengths: judged against the records, below
+        code = {sc.name: sc.length for sc in fi.assembly.scaffolds}
+        msgs = check_agp_against(agp.read_text(), expected, record_lengths=lengths, code_lengths=code, what=f"{how}: .agp cache beside the FASTA")
+        if msgs:
+            return msgs
+        try:
+            with contextlib.redirect_stderr(io.StringIO()):
+                write_assembly(fi, fi.assembly, out_fa, "FASTA", True)
+        except (Exception, SystemExit) as e:  # noqa: BLE001
+            return [f"{how}: writing the loaded assembly as FASTA raised {e!r}"]
+        import gc
+
+        gc.collect()
+        if not out_agp.exists():
+            return [f"{how}: no AGP written beside the FASTA"]
+        written, _ = record_lengths_of(out_fa.read_bytes())
+        msgs = check_agp_against(out_agp.read_text(), expected, record_lengths=written, what=f"{how}: x.agp beside x.fa written from the loaded assembly")
+        return msgs
+    finally:
+        if fi is not None:
+            close_index(fi)
+        for p in (out_fa, out_agp):
+            p.unlink(missing_ok=True)
+        G.remove_with_caches(path)
+
+
+def replaced_pairs(quick, rng):
+    R = G.Rec
+    pairs = [
+        (G.FastaCase([R("s1", b"ACGTACGTNNNNACGTACGTAC"), R("s2", b"ttgcaNacg", b" d")], 5, b"\n", True), G.FastaCase([R("s1", b"ACGTNNACGTAC"), R("s2", b"ttgcaacgGGCCNNNNNA", b" d")], 5, b"\n", True)),
+        (G.FastaCase([R("s1", b"ACGTNNACGT")], 3, b"\n", True), G.FastaCase([R("s1", b"ACGTNNACGT"), R("s2", b"GGNNNCC")], 3, b"\n", False)),
+        (G.FastaCase([R("a", b"ACGTNNACGT"), R("b", b"GGNNNCC"), R("c", b"nnACGT")], 4, b"\r\n", True), G.FastaCase([R("b", b"GGNNNCCA"), R("a", b"ACGTNACGT")], 4, b"\r\n", True)),
+        (G.FastaCase([R("old1", b"ACGTACGTAC"), R("old2", b"ACNNNGT")], 60, b"\n", True), G.FastaCase([R("new1", b"NACGTACGTA"), R("new2", b"ACGT"), R("new3", b"TTNAA")], 2, b"\n", True)),
+    ]
+    for _ in range(0 if quick else 300):
+        a, b = G.random_case(rng, max_len=120), G.random_case(rng, max_len=120)
+        if rng.random() < 0.5:
+            b = G.FastaCase(b.records, a.width, a.eol, a.final_newline)
+        pairs.append((a, b))
+    return pairs
+
+
 def history_scripts(max_ops):
     for n in range(1, max_ops + 1):
         yield from itertools.product(range(len(HISTORY_OPS)), repeat=n)
@@ -407,6 +502,8 @@ def replay(inp):
             m = check_history(inp["start"], inp["ops"], inp["observe"]) or []
         elif kind == "cache":
             m = check_cache(G.FastaCase.from_spec(inp["case"]), d / "r.fa", inp["buffer"], inp["warm"], inp.get("may_reject", False))
+        elif kind == "replaced":
+            m = check_replaced(G.FastaCase.from_spec(inp["old"]), G.FastaCase.from_spec(inp["case"]), d, inp["refreshed"], inp["buffer"])
         elif kind == "pair":
             m = check_pair(G.FastaCase.from_spec(inp["case"]), d, inp["buffer"], [(n, s) for n, s in inp["scaffolds"]])
         else:
@@ -428,7 +525,8 @@ def run(tier, seed, **opts):
         "types) alone and inside 2-3 scaffold assemblies; b. the .agp cache of FASTA files (every ACGT/other mask up to "
         f"{max_mask} residues, all-N records, widths 1..5,60, LF/CRLF, final newline or not, buffers 1,3,250000, cold and warm); c. write_assembly "
         "FASTA+AGP pairs with small buffers (gaps 0..3 buffers+1, minus strands); d. pretext-to-asm runs with FASTA and AGP output; "
-        "one evaluation = one AGP text checked (d: one command run); non-trivial = distinct input whose AGP has at least two rows "
+        "g. the .agp cache (and the x.fa / x.agp pair written from it) after the FASTA was replaced and the .fai alone / the .agp alone / neither "
+        "was rewritten for the new content; one evaluation = one AGP text checked (d: one command run; g: one history); non-trivial = distinct input whose AGP has at least two rows "
         "or a gap or (d) exited 0"
     )
     with G.quiet_logging(), G.workdir() as d:
@@ -554,6 +652,20 @@ def run(tier, seed, **opts):
                     col.case(("pair", bs, glen, shape), sample=inp if (bs, glen, shape) == (2, 4, 1) else None)
             if col.full:
                 break
+        # ---- g
+        n_replaced = 0
+        limit_g = len(col.failures) + 4
+        for pi, (a, b) in enumerate(replaced_pairs(quick, rng)):
+            for ri, refreshed in enumerate(("fai", "agp", "none")):
+                if col.full or len(col.failures) >= limit_g:
+                    break
+                bs = (250_000, 3, 1)[(pi + ri) % 3]
+                n_replaced += 1
+                msgs = check_replaced(a, b, d, refreshed, bs)
+                inp = {"kind": "replaced", "old": a.spec(), "case": b.spec(), "refreshed": refreshed, "buffer": bs}
+                if msgs:
+                    col.fail(msgs[0], inp)
+                col.case(("replaced", a.key(), b.key(), refreshed, bs), sample=inp if (pi, ri) == (0, 0) else None)
         # ---- d
         n_cli = 40 if quick else 1500
         for k in range(n_cli):
@@ -578,7 +690,7 @@ def run(tier, seed, **opts):
             f"a: {len(POOL)}-row pool, scaffolds of 1..{max_rows} rows; b: masks to length {max_mask} x 24 layouts + {100 if quick else 6000} random files; "
             f"c: buffers 1..{6 if quick else 11}, gaps 0..3*buffer+1, 3 assembly shapes; d: {n_cli} command runs (one input with 250000 / 500001 N runs "
             "to cross the command's fixed 250000 buffer)"
-            f"; f: {n_hist} histories"
+            f"; f: {n_hist} histories; g: {n_replaced} replaced-FASTA histories"
         ),
         exhaustive=False,
     )
